@@ -279,10 +279,14 @@ def gen_reentrant_targeted(rng):
         ops += [f'add {e} 1', 'snap', rng.choice([f'remove {e} 0', f'delete {e} 1', 'process 1', f'add {e} 0']), 'snap']
     elif shape == 'strip':
         act = rng.choice(['remove 0 1', 'add 0 4', 'delete 0 1', 'add 0 1', 'remove 0 2', 'add 2 1', 'delete 0 0',
-                          'create auto 1'])
+                          'create auto 1', 'delete 2 0', 'delete 2 0', 'delete 2 1'])
         ops = [rng.choice(['create auto 0,3,5', 'create auto 3,0', 'create auto 0,3']), 'snap']
-        ops += rng.choice([['delete 1 1'], ['delete 1 0', 'process 1'], ['clear'], ['remove 1 0', 'snap', 'delete 1 1']])
-        ops += ['snap', 'process 2', 'snap']
+        if rng.random() < 0.6:
+            # a second entity the callback may mark for deletion while the first one is being stripped / swept
+            ops += ['create auto 4', 'snap']
+        ops += rng.choice([['delete 1 1'], ['delete 1 0', 'process 1'], ['clear'], ['remove 1 0', 'snap', 'delete 1 1'],
+                           ['delete 1 0', 'snap', 'clear'], ['delete 1 0', 'delete 2 0', 'snap', 'process 1']])
+        ops += ['snap', 'process 2', 'snap', 'process 3', 'snap']
     else:
         if rng.random() < 0.5:
             act = rng.choice([f'rmproc {P}', f'rmproc {Q}', 'addproc 8 -', f'rmproc {Q} ; addproc 8 -'])
